@@ -33,7 +33,9 @@ with tempfile.TemporaryDirectory() as base:
     odd = os.path.join(base, "a:file\nREGISTER:" + victim)
     victim_deleted = not os.path.exists(victim)
     odd_left = os.path.exists(odd)
-if victim_deleted or odd_left:
+# a registration that is REFUSED (the client gets an exception) registers nothing: then only the bystander matters
+refused = res.returncode != 0 and "ValueError" in res.stderr
+if victim_deleted or (odd_left and not refused):
     print("VIOLATION C20: register(%r, 'file') then client exit: unregistered file deleted=%s, "
           "registered file left on disk=%s" % ("<base>/a:file\\nREGISTER:<base>/victim.txt", victim_deleted, odd_left))
     sys.exit(1)
